@@ -609,19 +609,20 @@ def dict_resolver(env):
                     and not getattr(fn, "__ptera_discard__", False)
                 ]
                 # The tooled copies of these functions (@tooled) go by the
-                # same reference: the one the path leads to now is meant
-                for fn in list(funcs):
-                    funcs.extend(
-                        cp
-                        for cp in getattr(fn, "__ptera_copies__", ())
-                        if not getattr(cp, "__ptera_discard__", False)
-                    )
-                if len(funcs) > 1:
+                # same reference: if the path leads to one of them now, that
+                # one is meant
+                copies = [
+                    cp
+                    for fn in funcs
+                    for cp in getattr(fn, "__ptera_copies__", ())
+                    if not getattr(cp, "__ptera_discard__", False)
+                ]
+                if copies or len(funcs) > 1:
                     bound = sys.modules.get(module or "__main__")
                     for part in hierarchy:
                         bound = getattr(bound, part, None)
                     bound = getattr(bound, "__func__", bound)
-                    if any(fn is bound for fn in funcs):
+                    if any(fn is bound for fn in funcs + copies):
                         funcs = [bound]
             if not funcs:  # pragma: no cover
                 raise Exception(f"Reference `{x}` cannot be resolved.")
